@@ -486,7 +486,45 @@ def r7(F, rep):
                            "(with an extended coordinate: the stretch of the coupling spring), and a repeated step is taken for a jump", func=e.q)
 
 
+def derived_defaults(F, rep, rid="C17-R8"):
+    rep.rule(rid, "a base class does not undo a derived class's default: where a constructor of a class enables a user feature "
+                  "(harmonicWalls bypasses the extended coordinate by default) and a base-class init() reads the keyword of that "
+                  "feature with get_keyval_feature(), the default passed is the feature's current state (is_enabled(F)), not a "
+                  "literal -- the keyword's default is applied even when the keyword is absent")
+    ctor_on = {}
+    for f in F.funcs.values():
+        if "/src/" not in f.file or f.body is None or not f.ctor or not f.cls:
+            continue
+        for c in X.calls(f):
+            if X.callee_name(c) in ("enable", "set_enabled") and X.call_args(c) and not (len(X.call_args(c)) > 1 and C._lit(X.call_args(c)[1]) == 0):
+                a = X.strip(X.call_args(c)[0])
+                if a["k"] == "DeclRefExpr" and (a.get("n") or "").startswith("f_"):
+                    ctor_on.setdefault(a["n"], set()).add(f.cls)
+    n = 0
+    for f in sorted(F.funcs.values(), key=lambda g: g.q):
+        if "/src/" not in f.file or f.body is None or not f.cls:
+            continue
+        for c in X.calls(f):
+            if X.callee_name(c) != "get_keyval_feature" or len(X.call_args(c)) < 5:
+                continue
+            args = X.call_args(c)
+            feat = X.strip(args[3])
+            if feat["k"] != "DeclRefExpr" or feat.get("n") not in ctor_on:
+                continue
+            users = sorted(k for k in ctor_on[feat["n"]] if f.cls in F.bases(k) or k == f.cls)
+            if not users:
+                continue
+            n += 1
+            d = X.re_strip(X.key(args[4], f))
+            ok = "is_enabled" in d and feat["n"] in d
+            rep.add(rid, "%s|%s" % (f.q, feat["n"]), f.loc(c), "%s reads the keyword of `%s` (enabled by the constructor of %s) with default `%s`" % (f.q, feat["n"], users, d[:60]), ok,
+                    detail="the class's documented default is silently replaced by the literal whenever the user does not write the keyword", func=f.q)
+    if n < 1:
+        raise AnalysisBroken("%s: no keyword of a constructor-enabled feature found (bypassExtendedLagrangian expected)" % rid)
+
+
 def run(F, rep, tier):
+    derived_defaults(F, rep)
     r7(F, rep)
     r1(F, rep)
     r2(F, rep)
